@@ -1,0 +1,1 @@
+//! Hooks for property C28 (empty unless needed).
